@@ -1,6 +1,7 @@
 import KitProofs.Props.C04Parser
 import KitProofs.Props.C04Next
 import KitProofs.Props.C03
+import KitProofs.Props.C01NoPanic
 import KitProofs.Lemmas.NoPanicSym
 import KitProofs.Lemmas.NoPanicNames
 import KitModel.NoPanicInventory
@@ -140,6 +141,33 @@ example : CryptoGlue.toyPrims.Std ∧ CryptoGlue.toyPrims.LawfulPrims ∧ Crypto
   ⟨CryptoGlue.toyPrims_ok.1, CryptoGlue.toyPrims_ok.2,
    ⟨fun _ _ _ _ _ => rfl, fun _ _ _ _ _ => rfl, fun _ _ _ _ _ => rfl⟩⟩
 
+/-! ## enc/v1 (C01/C02's instrumented model `KitModel/EncChk.lean`: every index / slice / `make` of the Go
+text is an explicit check, `none` = panic; proved equal to the plain model the C01/C02 checks tie to the code) -/
+
+/-- `readHeader` never panics, for every reader script and content (buffer of the regenerated size). -/
+theorem enc_readHeader_never_panics (r : Enc.Reader) :
+    Enc.Chk.readHeaderO Enc.Gen.bufSize Enc.EncParams.generated r = some (Enc.readHeader Enc.EncParams.generated r) :=
+  Enc.C01NoPanic.readHeader_never_panics Enc.Gen.bufSize Enc.EncParams.generated (by decide) r
+
+/-- `Decrypt` (header, manifest, unwrap result of any length, segment loop, `DecryptSegment`) never
+panics for any document bytes, any reader script, any options — with the regenerated constants and
+the concrete Lean AES-GCM / ChaCha20-Poly1305. -/
+theorem enc_decrypt_never_panics (cd : Enc.Codec) (o : Enc.DecryptOpts) (r : Enc.Reader) :
+    Enc.Chk.decryptO Enc.Gen.bufSize Enc.Gen.nonceLength Enc.Real.realCrypto cd Enc.EncParams.generated o r =
+      some (Enc.decryptImpl Enc.Real.realCrypto cd Enc.EncParams.generated o r) :=
+  Enc.C01NoPanic.decrypt_never_panics_real cd o r
+
+/-- the pooled buffer holds a decrypt segment plus the look-ahead byte exactly; the header limit fits -/
+theorem enc_buffer_capacity :
+    Enc.Gen.decryptSegmentArg + 1 = Enc.Gen.bufSize ∧ Enc.Gen.encryptSegmentArg + 1 ≤ Enc.Gen.bufSize ∧
+    Enc.Gen.headerLimit ≤ Enc.Gen.bufSize ∧ Enc.Gen.nonceLength = 12 :=
+  Enc.C01NoPanic.buffer_capacity_facts
+
+/-- C04Parser: `getBits`' loop `for i := min; i <= max; i += step` ends (the parser refuses step 0). -/
+theorem cron_getBits_loop_terminates (mx step : Nat) (hs : 1 ≤ step) (i : Nat) (bits : BitVec 64) (extra : Nat) :
+    Cron.getBitsLoop mx step (mx + 1 - i + extra) i bits = Cron.getBitsLoop mx step (mx + 1 - i) i bits :=
+  Cron.getBits_loop_terminates mx step hs i bits extra
+
 /-- The four `aescbcaead` constructors as regenerated by C03's factgen: the AES key has a legal
 size (so `aes.NewCipher(encKey)` in `Seal`/`Open` cannot fail and `panic(err)` is dead), the tag
 is no longer than the hash output (`h.Sum(nil)[:l]` is in range), and key = MAC key ‖ ENC key. -/
@@ -157,7 +185,8 @@ theorem cited_elsewhere_exist :
         Kit.C07.encryptSymmetric_never_panics, Kit.C07.decryptSymmetric_never_panics,
         Kit.C07.aeskw_wrap_never_panics, Kit.C07.pad_never_panics, Kit.C07.unpad_never_panics,
         Kit.C07.cbcHmacOpen_never_panics, Kit.C07.cbcHmacSeal_never_panics,
-        Kit.C07.aescbcaead_params_sound]) = true := by
+        Kit.C07.aescbcaead_params_sound, Kit.Cron.getBits_loop_terminates,
+        Kit.Enc.C01NoPanic.processSegments_never_panics, Kit.Enc.C01NoPanic.readHeader_never_panics]) = true := by
   decide +kernel
 
 end Kit.C07
